@@ -90,7 +90,8 @@ pub fn gen_base(rng: &mut Rng, cfg: &BaseCfg) -> (J, StdTable, Sel, Shape) {
     // REAL values one rounding step apart (distinct keys, distinct MIN / MAX candidates), and whole REALs beyond the 64-bit integers
     let ulp_reals = n <= 40 && rng.chance(1, 10);
     if ulp_reals { dc.ulp_reals = true; }
-    if !ulp_reals && rng.chance(1, 16) { dc.huge_reals = true; }
+    // (not where the order of the lines is varied: a sum over 1e300, -1e300 and 1.125 is whatever order it was added in)
+    if !ulp_reals && !cfg.order_insensitive_only && rng.chance(1, 16) { dc.huge_reals = true; }
     // plain / DISTINCT / joined rows over integers that are distinct but equal as doubles
     let big_rows = !big_ints && !mid_ints && n <= 40 && rng.chance(1, 8);
     if big_rows { dc.big_ints = true; }
@@ -110,9 +111,10 @@ pub fn gen_base(rng: &mut Rng, cfg: &BaseCfg) -> (J, StdTable, Sel, Shape) {
                 s = Sel { from: "t".into(), group_by: Some(vec![col("k")]), ..Default::default() };
                 s.projs = vec![(col("k"), None), (E::Agg("stddev".into(), false, vec![col("i")]), None), (E::Agg("variance".into(), false, vec![col("i")]), Some("v".into())), (E::Agg("avg".into(), false, vec![col("i")]), None), (E::Agg("sum".into(), false, vec![col("i")]), None), (E::Agg("count".into(), false, vec![E::Star]), None)];
             }
-            // (not in the bit-for-bit cases: which of -0.0 / 0.0 represents a REAL key depends on the order of arrival)
-            if ulp_reals && !mid_ints && t.schema.ty_of("r").is_some() && rng.chance(1, 2) { crate::gen::rekey(&mut s, "r"); }
-            if big_ints || big_rows {
+            // neighbouring doubles under varied line order: sums and deviations of them cancel to rounding noise, which no tolerance
+            // separates from a fault - statements without them
+            let ulp_order = ulp_reals && cfg.order_insensitive_only && !mid_ints;
+            if big_ints || big_rows || ulp_order {
                 let risky = |s: &Sel| crate::gen::big_int_risky(s);
                 for _ in 0..20 { if !risky(&s) { break; } s = gen_aggregate(rng, &t.schema, &acfg); }
                 if risky(&s) {
@@ -120,6 +122,8 @@ pub fn gen_base(rng: &mut Rng, cfg: &BaseCfg) -> (J, StdTable, Sel, Shape) {
                     s.projs = vec![(col("k"), None), (E::Agg("min".into(), false, vec![col("i")]), None), (E::Agg("max".into(), false, vec![col("i")]), Some("hi".into())), (E::Agg("count".into(), true, vec![col("i")]), None), (E::Agg("percentile".into(), false, vec![col("i"), E::Real(0.5)]), None)];
                 }
             }
+            // (not in the bit-for-bit cases: which of -0.0 / 0.0 represents a REAL key depends on the order of arrival)
+            if ulp_reals && !mid_ints && t.schema.ty_of("r").is_some() && rng.chance(1, 2) { crate::gen::rekey(&mut s, "r"); }
             s
         }
         _ => { let mut s = gen_select(rng, &t.schema, &StmtCfg { expr: ecfg.clone(), allow_distinct: false, allow_limit: false, allow_star: true, max_limit: 0 }); if shape == Shape::Distinct { s.distinct = true; } s }
